@@ -76,6 +76,7 @@ func dialectOf(fr []byte) string {
 
 // TestNego runs the negotiation grid against the real server and records every frame it writes.
 func TestNego(t *testing.T) {
+	StartWatchdog()
 	var cases []NegoCase
 	b, err := os.ReadFile(os.Getenv("VERIF_NEGO"))
 	if err != nil {
@@ -102,7 +103,12 @@ func TestNego(t *testing.T) {
 				c.Ops = &Ops{C: c}
 				want := 0
 				longErr := false
+				holdRead := false
 				c.Ops.Decide = func(op string, r *go9p.SrvReq) Cmd {
+					if holdRead && op == "read" {
+						holdRead = false
+						return c.park("negohold", r.Conn, r) // the implementation is slow: answered when released
+					}
 					if longErr {
 						return Cmd{Out: "longerr"}
 					}
@@ -313,6 +319,76 @@ func TestNego(t *testing.T) {
 						}
 						c.mu.Unlock()
 						lines = append(lines, Event{"act": "header", "s": len(bb), "obs": obs})
+					}
+					c.Close(hc)
+					c.Wait()
+				}
+				// 2d. a Tread in progress inside the implementation while a second Tversion lowers the msize: whatever
+				//     the server writes after the Rversion must fit the msize now in force
+				if negotiated && nm >= 256 {
+					hc, okv, m5, d5 := session()
+					if okv && m5 >= 256 {
+						lines = append(lines, Event{"act": "session", "msize": clampInt(m5), "dotu": d5})
+						hc.Dotu = d5
+						c.SendRaw(hc, wire.Encode(&wire.Msg{Type: wire.Tattach, Tag: 1, Fid: 1, Afid: wire.NOFID, Uname: "u"}, d5), nil)
+						if fr, ok := readOne(c, hc); ok {
+							lines = append(lines, Event{"act": "frame", "size": len(fr), "kind": wire.TypeName(fr[4]), "dialect": dialectOf(fr), "count": -1, "data": 0})
+						}
+						c.Wait()
+						lim5 := int(m5) - 24
+						holdRead = true
+						c.SendRaw(hc, wire.Encode(&wire.Msg{Type: wire.Tread, Tag: 7, Fid: 1, Count: uint32(lim5)}, d5), nil)
+						c.Wait()
+						v5 := "9P2000"
+						if d5 {
+							v5 = "9P2000.u"
+						}
+						m6 := m5 / 4
+						if m6 < 64 {
+							m6 = 64
+						}
+						c.SendRaw(hc, wire.Encode(&wire.Msg{Type: wire.Tversion, Tag: wire.NOTAG, Msize: m6, Version: v5}, false), nil)
+						obs := Event{"type": "none", "msize": 0, "version": ""}
+						if fr, ok := readOne(c, hc); ok {
+							if r, derr := wire.Decode(fr, d5); derr == nil {
+								obs = Event{"type": wire.TypeName(r.Type), "msize": clampInt(r.Msize), "version": r.Version}
+							}
+							lines = append(lines, Event{"act": "frame", "size": len(fr), "kind": wire.TypeName(fr[4]), "dialect": "", "count": -1, "data": 0})
+						}
+						c.Wait()
+						lines = append(lines, Event{"act": "version", "m": clampInt(m6), "v": v5, "obs": obs})
+						holdRead = false
+						want = lim5
+						if c.ReleasePoint("negohold", Cmd{Out: "ok", QType: go9p.QTDIR, Payload: 7, N: lim5}) {
+							res := make(chan []byte, 1)
+							go func() {
+								buf := make([]byte, 1<<21)
+								n, e := hc.cli.Read(buf)
+								if e != nil || n == 0 {
+									res <- nil
+									return
+								}
+								res <- buf[:n]
+							}()
+							c.Wait()
+							select {
+							case b := <-res:
+								if b != nil {
+									hc.fr.Feed(b)
+									if fr, _ := hc.fr.Next(); fr != nil && len(fr) >= 7 {
+										data := 0
+										if fr[4] == wire.Rread && len(fr) >= 11 {
+											data = len(fr) - 11
+										}
+										lines = append(lines, Event{"act": "frame", "size": len(fr), "kind": wire.TypeName(fr[4]), "dialect": dialectOf(fr), "count": lim5, "data": data})
+										frames++
+									}
+								}
+							default:
+							}
+							rep.Stats["held_across_version"] = toInt(rep.Stats["held_across_version"]) + 1
+						}
+						want = 0
 					}
 					c.Close(hc)
 					c.Wait()
